@@ -165,8 +165,9 @@ theorem dirtyDrop_cur {s : St} {h : Hist} {b : BatchSt} (hf : h.flushed ≠ []) 
 
 /-! ## the link between the ghost log and the bookkeeping -/
 
-/-- the state `s` (handle `db`, ghost directory `g`) has the history bookkeeping `h` -/
-structure HInv (s : St) (db : DB) (g : GDir) (h : Hist) : Prop where
+/-- the state `s` (handle `db`, ghost directory `g`) has the history bookkeeping `h`; `used` are
+    the batch ids handed out so far (or present in the files when the history started) -/
+structure HInv (s : St) (db : DB) (g : GDir) (h : Hist) (used : List Nat) : Prop where
   open_ : s.db = some db
   files : Files s db g
   /-- the log denotes exactly the acknowledged units -/
@@ -181,6 +182,10 @@ structure HInv (s : St) (db : DB) (g : GDir) (h : Hist) : Prop where
   /-- records are parked only under abandoned ids and under the id of the open batch -/
   parked : ∀ i, pendingGet (replayLog (logOf g)).pending i ≠ [] →
     i ∈ h.dirty ∨ ∃ b, db.batch = some b ∧ b.committed = false ∧ b.id = i
+  /-- every batch id in the files has been handed out … -/
+  tags : ∀ x ∈ logOf g, x.1.batch ≠ 0 → x.1.batch ∈ used
+  /-- … and so has the id of the batch object -/
+  curUsed : ∀ b, db.batch = some b → b.id ∈ used
 
 /-- where the id of the batch object after a call comes from -/
 def IdFrom (db : DB) (op : AOp) (db' : DB) : Prop :=
@@ -191,28 +196,40 @@ theorem IdFrom.of_eq {db db' : DB} {op : AOp} (h : db'.batch = db.batch) : IdFro
   exact Or.inl ⟨b', by rw [← h]; exact hb', rfl⟩
 
 /-- the files (hence the log) and the batch object are unchanged -/
-theorem HInv.same_log {s s' : St} {db db' : DB} {g : GDir} {h : Hist} (hi : HInv s db g h)
-    (hs' : s'.db = some db') (hf : Files s' db' g) (hbat : db'.batch = db.batch) : HInv s' db' g h :=
-  ⟨hs', hf, hi.units, by rw [hbat]; exact hi.cur, by rw [hbat]; exact hi.parked⟩
+theorem HInv.same_log {s s' : St} {db db' : DB} {g : GDir} {h : Hist} {used : List Nat} (hi : HInv s db g h used)
+    (hs' : s'.db = some db') (hf : Files s' db' g) (hbat : db'.batch = db.batch) : HInv s' db' g h used :=
+  ⟨hs', hf, hi.units, by rw [hbat]; exact hi.cur, by rw [hbat]; exact hi.parked, hi.tags,
+    by rw [hbat]; exact hi.curUsed⟩
 
 /-- one plain record was appended -/
-theorem HInv.plain {s s' : St} {db db' : DB} {g g' : GDir} {h : Hist} (hi : HInv s db g h)
+theorem HInv.plain {s s' : St} {db db' : DB} {g g' : GDir} {h : Hist} {used : List Nat} (hi : HInv s db g h used)
     (r : Record) (p : Pos) (hb0 : r.batch = 0)
     (hs' : s'.db = some db') (hf : Files s' db' g') (hlog : logOf g' = logOf g ++ [(r, p)])
     (hbat : db'.batch = db.batch) :
     HInv s' db' g'
-      { h with units := h.units ++ [if r.typ = 1 then MUnit.del r.key else MUnit.put r.key r.value] } := by
+      { h with units := h.units ++ [if r.typ = 1 then MUnit.del r.key else MUnit.put r.key r.value] } used := by
   obtain ⟨e1, e2⟩ := ext_plain (logOf g) r p hb0
-  refine ⟨hs', hf, by rw [hlog, e1, hi.units], ?_, ?_⟩
+  refine ⟨hs', hf, by rw [hlog, e1, hi.units], ?_, ?_, ?_, by rw [hbat]; exact hi.curUsed⟩
   · rw [hbat, hlog, e2]; exact hi.cur
   · rw [hbat, hlog, e2]; exact hi.parked
+  · intro x hx hne
+    rw [hlog] at hx
+    rcases List.mem_append.mp hx with hx | hx
+    · exact hi.tags x hx hne
+    · simp only [List.mem_singleton] at hx
+      rw [hx] at hne
+      exact absurd hb0 hne
 
 /-- the batch object was replaced by one with the same id and flag, with a non-empty staging area -/
-theorem HInv.set_batch {s s' : St} {db db' : DB} {g : GDir} {h : Hist} (hi : HInv s db g h)
+theorem HInv.set_batch {s s' : St} {db db' : DB} {g : GDir} {h : Hist} {used : List Nat} (hi : HInv s db g h used)
     {b b' : BatchSt} (hb : db.batch = some b) (hs' : s'.db = some db') (hf : Files s' db' g)
     (hb' : db'.batch = some b') (hid : b'.id = b.id) (hc : b'.committed = b.committed)
-    (hne : b'.staged ≠ []) : HInv s' db' g h := by
-  refine ⟨hs', hf, hi.units, ?_, ?_⟩
+    (hne : b'.staged ≠ []) : HInv s' db' g h used := by
+  refine ⟨hs', hf, hi.units, ?_, ?_, hi.tags, ?_⟩
+  rotate_left 2
+  · intro b2 hb2
+    rw [hb'] at hb2; cases hb2
+    rw [hid]; exact hi.curUsed b hb
   · intro b2 hb2 hc2
     rw [hb'] at hb2; cases hb2
     obtain ⟨c1, c2, c3, _⟩ := hi.cur b hb (by rw [← hc]; exact hc2)
@@ -238,16 +255,25 @@ theorem map_unRec_asLog (id : Nat) (st : List Staged) : ∀ (ps : List Pos), ps.
 
 /-- the staged records of the open batch `b` were written (tagged) to the log; the batch object
     becomes `b'` (same id, uncommitted, non-empty staging area) -/
-theorem HInv.flushed {s s' : St} {db db' : DB} {g g' : GDir} {h : Hist} (hi : HInv s db g h)
+theorem HInv.flushed {s s' : St} {db db' : DB} {g g' : GDir} {h : Hist} {used : List Nat} (hi : HInv s db g h used)
     {b b' : BatchSt} (hb : db.batch = some b) (hcm : b.committed = false)
     (hok : ∀ r ∈ b.staged, StagedOK r) (ps : List Pos) (hps : ps.length = b.staged.length)
     (hs' : s'.db = some db') (hf : Files s' db' g')
     (hlog : logOf g' = logOf g ++ asLog b.id (b.staged.zip ps))
     (hb' : db'.batch = some b') (hid : b'.id = b.id) (hcm' : b'.committed = false) (hne : b'.staged ≠ []) :
-    HInv s' db' g' { h with flushed := h.flushed ++ b.staged } := by
+    HInv s' db' g' { h with flushed := h.flushed ++ b.staged } used := by
   obtain ⟨c1, c2, c3, _⟩ := hi.cur b hb hcm
   obtain ⟨e1, e2⟩ := ext_tagged (logOf g) (asLog b.id (b.staged.zip ps)) b.id c1 (asLog_tagged hok)
-  refine ⟨hs', hf, by rw [hlog, e1, hi.units], ?_, ?_⟩
+  refine ⟨hs', hf, by rw [hlog, e1, hi.units], ?_, ?_, ?_, ?_⟩
+  rotate_left 2
+  · intro x hx hne
+    rw [hlog] at hx
+    rcases List.mem_append.mp hx with hx | hx
+    · exact hi.tags x hx hne
+    · rw [(asLog_tagged hok x hx).1]; exact hi.curUsed b hb
+  · intro b2 hb2
+    rw [hb'] at hb2; cases hb2
+    rw [hid]; exact hi.curUsed b hb
   · intro b2 hb2 _
     rw [hb'] at hb2; cases hb2
     refine ⟨by rw [hid]; exact c1, by rw [hid]; exact c2, ?_, fun _ => hne⟩
@@ -303,11 +329,11 @@ theorem batchOf_eq {s : St} {db : DB} (hs : s.db = some db) : batchOf s = db.bat
 
 /-- every outcome of a staging call keeps the link, with the bookkeeping step that `hstep`
     performs for `Batch.Put` / `Batch.Delete` -/
-theorem HInv.stageOut {s s' : St} {db : DB} {g : GDir} {h : Hist} (hi : HInv s db g h)
+theorem HInv.stageOut {s s' : St} {db : DB} {g : GDir} {h : Hist} {used : List Nat} (hi : HInv s db g h used)
     {b : BatchSt} {must : Prop} (hb : db.batch = some b) (hcm : b.committed = false)
     (hbs : BSize db.cfg.fileSize b) (op : AOp) (o : StageOut s db b must s') :
     ∃ db' g', HInv s' db' g'
-      (if rotated s s' then { h with flushed := h.flushed ++ stagedOf s } else h) ∧ IdFrom db op db' := by
+      (if rotated s s' then { h with flushed := h.flushed ++ stagedOf s } else h) used ∧ IdFrom db op db' := by
   cases o with
   | same e _ =>
     subst e
@@ -354,9 +380,9 @@ theorem appendLog_fields {s : St} {db : DB} {g : GDir} (hf : Files s db g) (r : 
   obtain ⟨g', bw, a, h1, h2, _, h4⟩ := appendLog_spec hf r hr
   exact ⟨g', h1, h2, by rw [h4], by rw [h4], by rw [h4]⟩
 
-theorem HInv_put {s : St} {db : DB} {g : GDir} {h : Hist} (hi : HInv s db g h)
+theorem HInv_put {s : St} {db : DB} {g : GDir} {h : Hist} {used : List Nat} (hi : HInv s db g h used)
     (k v : ByteArray) (hsz : k.size + v.size ≤ 2 ^ 27) :
-    ∃ db' g', HInv (put s k v).1 db' g' (hstep s h (.put k v)) ∧ db'.batch = db.batch := by
+    ∃ db' g', HInv (put s k v).1 db' g' (hstep s h (.put k v)) used ∧ db'.batch = db.batch := by
   by_cases hk : k.size = 0
   · rw [put_keyempty s k v hk hi.open_]
     simp only [hstep, hi.open_, if_pos hk]
@@ -374,9 +400,9 @@ theorem HInv_put {s : St} {db : DB} {g : GDir} {h : Hist} (hi : HInv s db g h)
       rfl (h1.congr rfl rfl rfl) h2 h4
     simpa using this
 
-theorem HInv_delete {s : St} {db : DB} {g : GDir} {h : Hist} (hi : HInv s db g h)
+theorem HInv_delete {s : St} {db : DB} {g : GDir} {h : Hist} {used : List Nat} (hi : HInv s db g h used)
     (k : ByteArray) (hsz : k.size ≤ 2 ^ 27) :
-    ∃ db' g', HInv (delete s k).1 db' g' (hstep s h (.del k)) ∧ db'.batch = db.batch := by
+    ∃ db' g', HInv (delete s k).1 db' g' (hstep s h (.del k)) used ∧ db'.batch = db.batch := by
   by_cases hk : k.size = 0
   · rw [delete_keyempty s k hk hi.open_]
     simp only [hstep, hi.open_, if_pos hk]
@@ -400,8 +426,8 @@ theorem HInv_delete {s : St} {db : DB} {g : GDir} {h : Hist} (hi : HInv s db g h
         rfl (h1.congr rfl rfl rfl) h2 h4
       simpa using this
 
-theorem HInv_sync {s : St} {db : DB} {g : GDir} {h : Hist} (hi : HInv s db g h) :
-    HInv (syncDB s).1 db g h := by
+theorem HInv_sync {s : St} {db : DB} {g : GDir} {h : Hist} {used : List Nat} (hi : HInv s db g h used) :
+    HInv (syncDB s).1 db g h used := by
   unfold syncDB withDB
   rw [hi.open_]
   exact hi.same_log hi.open_ (Files_sync hi.files) rfl
@@ -412,7 +438,7 @@ theorem map_ne_nil_of {α β : Type} {f : α → β} {l : List α} (h : l ≠ []
   | cons a t => simp
 
 /-- giving up the current batch object: everything parked is parked under an abandoned id -/
-theorem HInv.abandon {s : St} {db : DB} {g : GDir} {h : Hist} (hi : HInv s db g h) :
+theorem HInv.abandon {s : St} {db : DB} {g : GDir} {h : Hist} {used : List Nat} (hi : HInv s db g h used) :
     ∀ i, pendingGet (replayLog (logOf g)).pending i ≠ [] → i ∈ dirtyDrop s h := by
   intro i hne
   rcases hi.parked i hne with e | ⟨b, hb, hc, hid⟩
@@ -423,13 +449,19 @@ theorem HInv.abandon {s : St} {db : DB} {g : GDir} {h : Hist} (hi : HInv s db g 
     rw [← hid]
     exact dirtyDrop_cur hfl (by rw [batchOf_eq hi.open_]; exact hb)
 
-theorem HInv_bnew {s : St} {db : DB} {g : GDir} {h : Hist} (sync : Bool) (id : Nat)
-    (hi : HInv s db g h) (hid : id ≠ 0 ∧ id ∉ dirtyDrop s h) :
+theorem HInv_bnew {s : St} {db : DB} {g : GDir} {h : Hist} {used : List Nat} (sync : Bool) (id : Nat)
+    (hi : HInv s db g h used) (hid : id ≠ 0 ∧ id ∉ dirtyDrop s h) :
     HInv (bnew s sync id).1 { db with batch := some (newBatch sync id) } g
-      { h with flushed := [], dirty := dirtyDrop s h } := by
+      { h with flushed := [], dirty := dirtyDrop s h } (id :: used) := by
   rw [bnew_eq hi.open_]
   have hab := hi.abandon
-  refine ⟨rfl, hi.files.congr rfl rfl rfl, hi.units, ?_, ?_⟩
+  refine ⟨rfl, hi.files.congr rfl rfl rfl, hi.units, ?_, ?_,
+    fun x hx hne => List.mem_cons_of_mem _ (hi.tags x hx hne), ?_⟩
+  rotate_left 2
+  · intro b hb
+    simp only [Option.some.injEq] at hb
+    subst hb
+    exact List.mem_cons_self
   · intro b hb _
     simp only [Option.some.injEq] at hb
     subst hb
@@ -443,19 +475,19 @@ theorem HInv_bnew {s : St} {db : DB} {g : GDir} {h : Hist} (sync : Bool) (id : N
   · intro i hne
     exact Or.inl (hab i hne)
 
-theorem HInv_bdrop {s : St} {db : DB} {g : GDir} {h : Hist} (hi : HInv s db g h) :
-    HInv (bdrop s).1 { db with batch := none } g { h with flushed := [], dirty := dirtyDrop s h } := by
+theorem HInv_bdrop {s : St} {db : DB} {g : GDir} {h : Hist} {used : List Nat} (hi : HInv s db g h used) :
+    HInv (bdrop s).1 { db with batch := none } g { h with flushed := [], dirty := dirtyDrop s h } used := by
   rw [bdrop_eq hi.open_]
-  refine ⟨rfl, hi.files.congr rfl rfl rfl, hi.units, ?_, ?_⟩
+  refine ⟨rfl, hi.files.congr rfl rfl rfl, hi.units, ?_, ?_, hi.tags, fun b hb => by simp at hb⟩
   · intro b hb _; simp at hb
   · intro i hne
     exact Or.inl (hi.abandon i hne)
 
-theorem HInv_bput {s : St} {db : DB} {g : GDir} {h : Hist} (hi : HInv s db g h)
+theorem HInv_bput {s : St} {db : DB} {g : GDir} {h : Hist} {used : List Nat} (hi : HInv s db g h used)
     (hbs : ∀ b, db.batch = some b → BSize db.cfg.fileSize b) (k v : ByteArray) :
-    ∃ db' g', HInv (bput s k v).1 db' g' (hstep s h (.bput k v)) ∧ IdFrom db (.bput k v) db' := by
+    ∃ db' g', HInv (bput s k v).1 db' g' (hstep s h (.bput k v)) used ∧ IdFrom db (.bput k v) db' := by
   show ∃ db' g', HInv (bput s k v).1 db' g'
-    (if rotated s (bput s k v).1 then { h with flushed := h.flushed ++ stagedOf s } else h) ∧ _
+    (if rotated s (bput s k v).1 then { h with flushed := h.flushed ++ stagedOf s } else h) used ∧ _
   cases hb : db.batch with
   | none =>
     rw [bput_nobatch hi.open_ hb, rotated_self]
@@ -469,11 +501,11 @@ theorem HInv_bput {s : St} {db : DB} {g : GDir} {h : Hist} (hi : HInv s db g h)
       exact ⟨db, g, hi, IdFrom.of_eq rfl⟩
     exact hi.stageOut hb (by simpa using hc) (hbs b hb) _ (bput_out hi.open_ hb k v)
 
-theorem HInv_bdel {s : St} {db : DB} {g : GDir} {h : Hist} (hi : HInv s db g h)
+theorem HInv_bdel {s : St} {db : DB} {g : GDir} {h : Hist} {used : List Nat} (hi : HInv s db g h used)
     (hbs : ∀ b, db.batch = some b → BSize db.cfg.fileSize b) (k : ByteArray) :
-    ∃ db' g', HInv (bdel s k).1 db' g' (hstep s h (.bdel k)) ∧ IdFrom db (.bdel k) db' := by
+    ∃ db' g', HInv (bdel s k).1 db' g' (hstep s h (.bdel k)) used ∧ IdFrom db (.bdel k) db' := by
   show ∃ db' g', HInv (bdel s k).1 db' g'
-    (if rotated s (bdel s k).1 then { h with flushed := h.flushed ++ stagedOf s } else h) ∧ _
+    (if rotated s (bdel s k).1 then { h with flushed := h.flushed ++ stagedOf s } else h) used ∧ _
   cases hb : db.batch with
   | none =>
     rw [bdel_nobatch hi.open_ hb, rotated_self]
@@ -489,11 +521,11 @@ theorem HInv_bdel {s : St} {db : DB} {g : GDir} {h : Hist} (hi : HInv s db g h)
 
 /-- **Commit of a non-empty staging area**: the flushed pieces, the staged records and the sealing
     record are in the log; the replay releases them as ONE unit -/
-theorem HInv_bcommit_nonempty {s : St} {db : DB} {g : GDir} {h : Hist} (hi : HInv s db g h)
+theorem HInv_bcommit_nonempty {s : St} {db : DB} {g : GDir} {h : Hist} {used : List Nat} (hi : HInv s db g h used)
     {b : BatchSt} (hb : db.batch = some b) (hc : b.committed = false) (he : b.staged ≠ [])
     (hbs : BSize db.cfg.fileSize b) :
     ∃ db' g', HInv (bcommit s).1 db' g'
-      { h with units := h.units ++ [MUnit.batch b.id (h.flushed ++ b.staged)], flushed := [] } ∧
+      { h with units := h.units ++ [MUnit.batch b.id (h.flushed ++ b.staged)], flushed := [] } used ∧
       IdFrom db .bcommit db' := by
   obtain ⟨c1, _, c3, _⟩ := hi.cur b hb hc
   have hid64 : b.id < 2 ^ 64 := by
@@ -513,7 +545,24 @@ theorem HInv_bcommit_nonempty {s : St} {db : DB} {g : GDir} {h : Hist} (hi : HIn
   obtain ⟨d1, d2⟩ := ext_fin (logOf g1) (finRec b.id) (sealPos s1 db1 b.id) c1 rfl
   have hfb : (finRec b.id).batch = b.id := rfl
   rw [hfb] at d1 d2
-  refine ⟨_, g2, ⟨rfl, hf2.congr rfl rfl rfl, ?_, ?_, ?_⟩, ?_⟩
+  refine ⟨_, g2, ⟨rfl, hf2.congr rfl rfl rfl, ?_, ?_, ?_, ?_, ?_⟩, ?_⟩
+  rotate_left 3
+  · intro x hx hne
+    rw [hlog2, h3] at hx
+    rcases List.mem_append.mp hx with hx | hx
+    · rcases List.mem_append.mp hx with hx | hx
+      · exact hi.tags x hx hne
+      · rw [(asLog_tagged hok x hx).1]; exact hi.curUsed b hb
+    · simp only [List.mem_singleton] at hx
+      rw [hx]; exact hi.curUsed b hb
+  · intro b2 hb2
+    simp only [Option.some.injEq] at hb2
+    subst hb2
+    exact hi.curUsed b hb
+  · intro b2 hb2
+    simp only [Option.some.injEq] at hb2
+    subst hb2
+    exact Or.inl ⟨b, hb, rfl⟩
   · show unitsOfLog (logOf g2) = h.units ++ [MUnit.batch b.id (h.flushed ++ b.staged)]
     rw [hlog2, d1, h3, e1, e2, pendingGet_parkAll, List.map_append, c3, map_unRec_asLog _ _ _ h1, hi.units]
   · intro b2 hb2 hc2
@@ -530,14 +579,10 @@ theorem HInv_bcommit_nonempty {s : St} {db : DB} {g : GDir} {h : Hist} (hi : HIn
       · exact e'
       · rw [hb] at hb0; cases hb0
         exact absurd hid0.symm e
-  · intro b2 hb2
-    simp only [Option.some.injEq] at hb2
-    subst hb2
-    exact Or.inl ⟨b, hb, rfl⟩
 
-theorem HInv_bcommit {s : St} {db : DB} {g : GDir} {h : Hist} (hi : HInv s db g h)
+theorem HInv_bcommit {s : St} {db : DB} {g : GDir} {h : Hist} {used : List Nat} (hi : HInv s db g h used)
     (hbs : ∀ b, db.batch = some b → BSize db.cfg.fileSize b) :
-    ∃ db' g', HInv (bcommit s).1 db' g' (hstep s h .bcommit) ∧ IdFrom db .bcommit db' := by
+    ∃ db' g', HInv (bcommit s).1 db' g' (hstep s h .bcommit) used ∧ IdFrom db .bcommit db' := by
   cases hb : db.batch with
   | none =>
     rw [bcommit_nobatch hi.open_ hb]
@@ -552,7 +597,16 @@ theorem HInv_bcommit {s : St} {db : DB} {g : GDir} {h : Hist} (hi : HInv s db g 
     by_cases he : b.staged = []
     · rw [bcommit_empty hi.open_ hb hc' he]
       simp only [hstep, batchOf_eq hi.open_, hb, he, ne_eq, not_true_eq_false, and_false, if_false]
-      refine ⟨_, g, ⟨rfl, hi.files.congr rfl rfl rfl, hi.units, ?_, ?_⟩, ?_⟩
+      refine ⟨_, g, ⟨rfl, hi.files.congr rfl rfl rfl, hi.units, ?_, ?_, hi.tags, ?_⟩, ?_⟩
+      rotate_left 2
+      · intro b2 hb2
+        simp only [Option.some.injEq] at hb2
+        subst hb2
+        exact hi.curUsed b hb
+      · intro b2 hb2
+        simp only [Option.some.injEq] at hb2
+        subst hb2
+        exact Or.inl ⟨b, hb, rfl⟩
       · intro b2 hb2 hc2
         simp only [Option.some.injEq] at hb2
         subst hb2
@@ -566,10 +620,6 @@ theorem HInv_bcommit {s : St} {db : DB} {g : GDir} {h : Hist} (hi : HInv s db g 
           have hfl : h.flushed ≠ [] := by
             rw [← c3]; rw [← hid0] at hne; exact map_ne_nil_of hne
           exact absurd he (c4 hfl)
-      · intro b2 hb2
-        simp only [Option.some.injEq] at hb2
-        subst hb2
-        exact Or.inl ⟨b, hb, rfl⟩
     · have := HInv_bcommit_nonempty hi hb hc' he (hbs b hb)
       simp only [hstep, batchOf_eq hi.open_, hb, hc', he, ne_eq, not_false_eq_true, and_self, if_true]
       exact this
@@ -577,10 +627,10 @@ theorem HInv_bcommit {s : St} {db : DB} {g : GDir} {h : Hist} (hi : HInv s db g 
 /-! ## one call, any call -/
 
 /-- **every call keeps the link** between the ghost log and the history bookkeeping -/
-theorem HInv_astep {s : St} {db : DB} {g : GDir} {h : Hist} (op : AOp)
-    (hi : HInv s db g h) (hbs : ∀ b, db.batch = some b → BSize db.cfg.fileSize b)
+theorem HInv_astep {s : St} {db : DB} {g : GDir} {h : Hist} {used : List Nat} (op : AOp)
+    (hi : HInv s db g h used) (hbs : ∀ b, db.batch = some b → BSize db.cfg.fileSize b)
     (hop : AOpOK op) (hid : bnewOK s h op) :
-    ∃ db' g', HInv (astep s op).1 db' g' (hstep s h op) ∧ IdFrom db op db' := by
+    ∃ db' g', HInv (astep s op).1 db' g' (hstep s h op) (bnewId op ++ used) ∧ IdFrom db op db' := by
   cases op with
   | put k v =>
     obtain ⟨db', g', h1, h2⟩ := HInv_put hi k v hop
@@ -589,7 +639,7 @@ theorem HInv_astep {s : St} {db : DB} {g : GDir} {h : Hist} (op : AOp)
     obtain ⟨db', g', h1, h2⟩ := HInv_delete hi k hop
     exact ⟨db', g', h1, IdFrom.of_eq h2⟩
   | get k =>
-    show ∃ db' g', HInv (get s k).1 db' g' h ∧ _
+    show ∃ db' g', HInv (get s k).1 db' g' h used ∧ _
     rw [PolicyP.Dur.get_state]
     exact ⟨db, g, hi, IdFrom.of_eq rfl⟩
   | sync => exact ⟨db, g, HInv_sync hi, IdFrom.of_eq rfl⟩
@@ -602,7 +652,7 @@ theorem HInv_astep {s : St} {db : DB} {g : GDir} {h : Hist} (op : AOp)
   | bput k v => exact HInv_bput hi hbs k v
   | bdel k => exact HInv_bdel hi hbs k
   | bget k =>
-    show ∃ db' g', HInv (bget s k).1 db' g' h ∧ _
+    show ∃ db' g', HInv (bget s k).1 db' g' h used ∧ _
     rw [bget_state]
     exact ⟨db, g, hi, IdFrom.of_eq rfl⟩
   | bcommit => exact HInv_bcommit hi hbs
